@@ -75,7 +75,7 @@ pub fn rich_objects() -> Vec<(u64, Val)> {
         5,
         Val::dict(vec![
             ("Font", Val::dict(vec![("F1", Val::r(9)), ("F2", Val::r(12))])),
-            ("XObject", Val::dict(vec![("Im1", Val::r(16)), ("Fm1", Val::r(17)), ("Im2", Val::r(18))])),
+            ("XObject", Val::dict(vec![("Im1", Val::r(16)), ("Fm1", Val::r(17)), ("Im2", Val::r(18)), ("Fm2", Val::r(43)), ("Fm3", Val::r(44))])),
             ("ExtGState", Val::dict(vec![("GS1", Val::dict(vec![("Type", Val::name("ExtGState")), ("LW", Val::Int(2)), ("CA", Val::real("0.5"))]))])),
             ("ColorSpace", Val::dict(vec![("CS1", Val::Array(vec![Val::name("Indexed"), Val::name("DeviceRGB"), Val::Int(1), Val::Str(vec![0, 0, 0, 255, 255, 255])])), ("CS2", Val::Array(vec![Val::name("ICCBased"), Val::r(35)])), ("CS8", Val::Array(vec![Val::name("Pattern"), Val::name("DeviceRGB")])), ("CS9", Val::Array(vec![Val::name("CalRGB"), Val::dict(vec![("WhitePoint", Val::Array(vec![Val::real("0.9505"), Val::Int(1), Val::real("1.089")])), ("Gamma", Val::Array(vec![Val::real("2.2"), Val::real("2.2"), Val::real("2.2")]))])]))])),
             ("Pattern", Val::dict(vec![("P1", Val::r(36))])),
@@ -83,7 +83,7 @@ pub fn rich_objects() -> Vec<(u64, Val)> {
             ("Properties", Val::dict(vec![("MC0", Val::dict(vec![("Kind", Val::name("Layer"))]))])),
         ]),
     ));
-    let content_a = b"q 1 0 0 1 72 700 cm BT /F1 12 Tf 14 TL (Hello) Tj T* [(Wor) -20 (ld)] TJ ET Q\n/GS1 gs /CS1 cs 1 sc 10 10 100 50 re f\nq 50 0 0 50 100 100 cm /Im1 Do Q\n/Fm1 Do\nBI /W 2 /H 2 /CS /G /BPC 8 ID \x00\x55\xaa\xff EI\n0.5 g 1 0 0 RG 0 0 m 10 10 l 20 20 30 30 40 40 c h S\n/Sh1 sh /OC /MC0 BDC EMC\n/CS2 CS 0.1 0.2 0.3 SC /CS9 cs 0.25 0.5 0.75 sc /CS8 cs 0.5 0.5 0.5 /P1 scn 1 1 2 2 re B\n".to_vec();
+    let content_a = b"q 1 0 0 1 72 700 cm BT /F1 12 Tf 14 TL (Hello) Tj T* [(Wor) -20 (ld)] TJ ET Q\n/GS1 gs /CS1 cs 1 sc 10 10 100 50 re f\nq 50 0 0 50 100 100 cm /Im1 Do Q\n/Fm1 Do\nBI /W 2 /H 2 /CS /G /BPC 8 ID \x00\x55\xaa\xff EI\n0.5 g 1 0 0 RG 0 0 m 10 10 l 20 20 30 30 40 40 c h S\n/Sh1 sh /OC /MC0 BDC EMC\n/Fm2 Do /Fm3 Do /CS2 CS 0.1 0.2 0.3 SC /CS9 cs 0.25 0.5 0.75 sc /CS8 cs 0.5 0.5 0.5 /P1 scn 1 1 2 2 re B\n".to_vec();
     o.push((6, Val::stream(vec![], content_a)));
     o.push((7, Val::stream(vec![("Filter", Val::name("FlateDecode"))], pf::flate_encode(b"BT /F2 10 Tf <00010002> Tj ", pf::FlateStyle::ZlibDefault))));
     o.push((8, Val::stream(vec![("Filter", Val::Array(vec![Val::name("ASCII85Decode")]))], pf::a85_encode(b"ET\n/P1 scn 0 0 5 5 re B\n", pf::A85Style::Lines))));
@@ -145,6 +145,16 @@ pub fn rich_objects() -> Vec<(u64, Val)> {
             b"BT /F1 8 Tf (in form) Tj ET".to_vec(),
         ),
     ));
+    // two more forms, each with its own inline resources (same shape, different content)
+    for (nr, lw) in [(43u64, 3), (44, 4)] {
+        o.push((
+            nr,
+            Val::stream(
+                vec![("Type", Val::name("XObject")), ("Subtype", Val::name("Form")), ("BBox", rect(0, 0, 10, 10)), ("Resources", Val::dict(vec![("ExtGState", Val::dict(vec![("GSf", Val::dict(vec![("Type", Val::name("ExtGState")), ("LW", Val::Int(lw))]))]))]))],
+                b"/GSf gs 0 0 5 5 re f".to_vec(),
+            ),
+        ));
+    }
     // 1-bit image mask through ASCIIHex + RunLength
     let mask = vec![0b1010_0000u8, 0b0101_0000];
     o.push((
@@ -178,7 +188,7 @@ pub fn rich_objects() -> Vec<(u64, Val)> {
     o
 }
 
-pub const RICH_SIZE: u64 = 39;
+pub const RICH_SIZE: u64 = 45;
 
 /// Assemble the rich document. `prefix` is junk before the header.
 pub fn rich_doc(prefix: &[u8], opts: DocOpts) -> Vec<u8> {
